@@ -98,7 +98,9 @@ def run(ctx):
     fn = mm.method('Model', 'interpolate_to_grid')
     ps = au.params(fn)
     d = [n for n in ast.walk(fn) if isinstance(n, ast.Dict) and any(
-        isinstance(k, ast.Constant) and k.value == 'log' for k in n.keys)]
+        isinstance(k, ast.Constant) and k.value == 'log' for k in n.keys)
+        and any(isinstance(k, ast.Constant) and k.value == 'method'
+                for k in n.keys)]
     ctx.anchor(len(d) == 1, 'interpolation options in '
                'Model.interpolate_to_grid')
     kv = {k.value: v for k, v in zip(d[0].keys, d[0].values)
@@ -144,16 +146,43 @@ def run(ctx):
               'otherwise', ctx.where(mm, d[0]),
               sample={'order': [ast.unparse(k) if k is not None else '**'
                                 for k in d[0].keys]})
+    # mu_r / epsilon_r are not mapped: their log flag must not come from the
+    # mapping (shared rule of C14)
+    from .c14 import rule_unmapped
+    from ..core.report import Renamed
+    rule_unmapped(Renamed(ctx, lambda r: 'C15.VA1.log'))
     require(ctx, 'C15.VA1.options', 'interpolate_to_grid identity shortcut',
             f'if {ps[1]} == self.grid:\n    return self', fn,
             'interpolation to the own grid is not the identity',
             ctx.where(mm, fn))
-    b = require(ctx, 'C15.VA1.options', 'interpolate_to_grid: every defined '
-                'property', 'for _p_ in self._def_properties:\n'
-                '    _v_ = getattr(self, _p_)\n'
-                '    _m_[_p_] = maps.interpolate(values=_v_, **_o_)', fn,
-                'not every defined property is interpolated with the common '
-                'options', ctx.where(mm, fn))
+    lps = [n for n in ast.walk(fn) if isinstance(n, ast.For) and
+           ast.unparse(n.iter) == 'self._def_properties' and
+           isinstance(n.target, ast.Name)]
+    b = None
+    okl = len(lps) == 1
+    if okl:
+        pv_ = lps[0].target.id
+        gv = find(f'_v_ = getattr(self, {pv_})', lps[0])
+        st_ = find(f'_m_[{pv_}] = maps.interpolate(values=_v_, **_o_)',
+                   lps[0])
+        okl = len(gv) == 1 and len(st_) == 1 and \
+            gv[0][1]['_v_'] == st_[0][1]['_v_'] and \
+            not au.guards_of(st_[0][0], lps[0])
+        if okl:
+            b = st_[0][1]
+            gname = [ast.unparse(t) for n_ in ast.walk(fn) if isinstance(
+                n_, ast.Assign) and n_.value is d[0] for t in n_.targets]
+            O = b['_o_']
+            odefs = [n_ for n_ in ast.walk(lps[0]) if isinstance(
+                n_, ast.Assign) and ast.unparse(n_.targets[0]) == O]
+            okl = bool(gname) and (O == gname[0] or (odefs and all(
+                ast.unparse(n_.value) == gname[0] or
+                has(f"{{**{gname[0]}, 'log': __}}", n_.value)
+                for n_ in odefs)))
+    ctx.check('C15.VA1.options', 'interpolate_to_grid: every defined '
+              'property', okl, 'not every defined property is interpolated '
+              'with the common options (only the log flag may differ for the '
+              'unmapped properties)', ctx.where(mm, fn))
     if b:
         require(ctx, 'C15.VA1.options', 'interpolate_to_grid keeps the '
                 'mapping', f'return Model({ps[1]}, mapping=self.map.name, '
